@@ -431,6 +431,11 @@ class ExprMixin:
             return self.unit.ref_attr(self, base, attr)
         if isinstance(base, VExc):
             return self.fresh("str", "exc_" + attr)
+        if isinstance(base, VFunc) and base.kind == "callee":
+            key = base.name + "." + attr
+            if key in self.unit.contract.calls:
+                return VFunc(key, "callee", self.unit.contract.calls[key])
+            raise GenError("attribute %s of callable %s has no spec" % (attr, base.name))
         if is_const(base) or isinstance(base, (list, dict, VList, Sym, VSet)):
             return VFunc(attr, "method", base)
         raise GenError("attribute %s of %r" % (attr, base))
